@@ -21,15 +21,24 @@ import z3
 from crosshair.libimpl.builtinslib import AnySymbolicStr, SymbolicInt, SymbolicBool
 from crosshair.core import CrossHairValue, realize
 from crosshair.tracers import NoTracing, ResumedTracing
-from crosshair.util import CrossHairInternal
+from crosshair.util import CrossHairInternal, UnexploredPath
 
 SPACE_SRC = -1
 LIT = -1      # first component of the atom of a literal character
 OUT = -99
 
 
-class Unsupported(CrossHairInternal):
-    pass
+UNSUPPORTED_LOG = []
+
+
+class Unsupported(UnexploredPath):
+    """the operation would have to look at the characters of an abstract text: the path is
+    abandoned as UNKNOWN (the instance can then at best end CANNOT_CONFIRM)"""
+
+    def __init__(self, *a):
+        UnexploredPath.__init__(self, *a)
+        if len(UNSUPPORTED_LOG) < 20 and a and a[0] not in UNSUPPORTED_LOG:
+            UNSUPPORTED_LOG.append(a[0])
 
 
 def zint(x):
